@@ -53,4 +53,36 @@ def answers : List OutA → List Out
   | .out o :: r => o :: answers r
   | .cellError :: r => answers r
 
+
+/-! ### calls as the caller writes them -/
+
+/-- an address resolves inside a workbook of `n` sheets: `handle_cell`, then the sheet number is one of the workbook's -/
+def resolveIn (titles : List (List Char)) (n : Nat) (a : Addr) : Option Uid :=
+  match resolve titles a with
+  | some u => if u.sheet < n then some u else none
+  | none => none
+
+def resolveAllIn (titles : List (List Char)) (n : Nat) : List (Addr × Val) → Option (List (Uid × Val))
+  | [] => some []
+  | (a, v) :: rest =>
+    match resolveIn titles n a, resolveAllIn titles n rest with
+    | some u, some b => some ((u, v) :: b)
+    | _, _ => none
+
+/-- a call of the public API: `set_cells` with addresses as written, or a query -/
+inductive Call where
+  | setCells (batch : List (Addr × Val))
+  | get (u : Uid)
+  | gets (us : List Uid)
+  | sheet (s : Nat)
+
+/-- what the executor does with a call: a batch with an address that does not resolve is rejected as a whole -/
+def compileCall (titles : List (List Char)) (n : Nat) : Call → OpA
+  | .setCells batch => match resolveAllIn titles n batch with
+    | some b => .op (.set b)
+    | none => .rejected
+  | .get u => .op (.get u)
+  | .gets us => .op (.gets us)
+  | .sheet s => .op (.sheet s)
+
 end E2P
